@@ -93,6 +93,41 @@ func evalLValueAST(env *EvalEnv, e interface{}) (PtrV, error) {
 			return p, nil
 		}
 		return PtrV{}, fmt.Errorf("%s is not a location", e.Name)
+	case *ast.CallExpr:
+		// a contract predicate whose body denotes a location
+		id, ok := e.Fun.(*ast.Ident)
+		if !ok || env.Fn == nil || x.DB == nil {
+			break
+		}
+		rel := strings.TrimPrefix(pkgPathOf(env.Fn), modPath+"/")
+		pd := x.DB.Preds[rel+"."+id.Name]
+		if pd == nil || len(pd.Params) != len(e.Args) {
+			break
+		}
+		var vals []Val
+		for _, a := range e.Args {
+			v, err := env.Eval(a)
+			if err != nil {
+				return PtrV{}, err
+			}
+			vals = append(vals, v)
+		}
+		saved := map[string]Val{}
+		had := map[string]bool{}
+		for i, pn := range pd.Params {
+			saved[pn] = env.Vars[pn]
+			_, had[pn] = env.Vars[pn]
+			env.Vars[pn] = vals[i]
+		}
+		lv, err := evalLValueAST(env, pd.Body.Expr)
+		for _, pn := range pd.Params {
+			if had[pn] {
+				env.Vars[pn] = saved[pn]
+			} else {
+				delete(env.Vars, pn)
+			}
+		}
+		return lv, err
 	}
 	return PtrV{}, fmt.Errorf("unsupported location expression")
 }
